@@ -344,6 +344,12 @@ impl vstd::std_specs::cmp::PartialEqSpecImpl for crate::grammar::ItemPathSegment
     open spec fn eq_spec(&self, other: &crate::grammar::ItemPathSegment) -> bool { *self == *other }
 }
 
+/// derived `PartialEq` of `ItemDefinition` is structural (A5)
+impl vstd::std_specs::cmp::PartialEqSpecImpl for crate::semantic::types::ItemDefinition {
+    open spec fn obeys_eq_spec() -> bool { true }
+    open spec fn eq_spec(&self, other: &crate::semantic::types::ItemDefinition) -> bool { *self == *other }
+}
+
 /// derived `PartialEq` of the field-less enum `ItemCategory` is structural (A5)
 impl vstd::std_specs::cmp::PartialEqSpecImpl for crate::semantic::types::ItemCategory {
     open spec fn obeys_eq_spec() -> bool { true }
